@@ -102,4 +102,20 @@ CHECKS = {
                 "never to another application, target or client; UDP sockets still bound afterwards. non-trivial = at least one datagram reached a target; distinct = (plan, poll order).",
         "real": REAL_SYSTEM, "stub": STUB_SYSTEM, "assumptions": ASSUME_SYSTEM + ["an over-size datagram may be dropped whole", "VMess/Trojan replies may be labelled with the requested name instead of the literal address (their wire formats do not carry the source)"],
     },
+    "C11": {
+        "level": "model_checking",
+        "parts": [
+            {"gen": "C11model", "quick": 196, "thorough": 196, "exhaustive": True},
+            {"gen": "C11model", "quick": 160, "thorough": 3200},
+            {"gen": "C11", "quick": 1600, "thorough": 32000},
+        ],
+        "rule": "three parts. (a) exhaustive: every sequence of length 2..5 over the 14-value boundary alphabet {0,1,63,64,65,8127,8128,8129,8191,8192,8193,16389,2^64-2,2^64-1} x limits {2^64-1, 8192, 65}, "
+                "the real PacketWindowFilter compared step by step with a set-based reference model (accept iff id < limit and (id > max or (max - id <= 8128 and id not seen))). "
+                "(b) seeded long histories (1-3000 ids: increments, small and window-edge back-steps, jumps larger than the ring, boundary values, start points up to 2^64 - 20000), same comparison, failing histories shrunk. "
+                "(c) system: real Shadowsocks-2022 client and server, applications sending bursts of numbered datagrams over a link that duplicates (30-100%) and reorders (0-90%) but does not lose; "
+                "every datagram and every reply must arrive exactly once, i.e. duplicates are refused, reordered ids inside the window accepted, and a refusal ends neither the session nor the service. "
+                "evaluations = sequences compared + system runs; non-trivial/distinct = distinct histories or (plan, poll order).",
+        "real": ["octo_squirrel::manager::packet_window::PacketWindowFilter (a, b)"] + REAL_SYSTEM, "stub": STUB_SYSTEM,
+        "assumptions": ASSUME_SYSTEM + ["the reference model is the harness's reading of the property statement (window 8128, limit exclusive)", "packet ids near 2^64 are exercised at component level only"],
+    },
 }
